@@ -128,6 +128,33 @@ fn cluster_sweep<const D: usize>(rng: &mut Rng, out: &mut Out, reps: usize) {
     }
 }
 
+/// repair policy `EveryN(n)`: small integer lattice points inserted one at a time (both APIs).  On
+/// such degenerate input the scheduled repair or its post-steps fail now and then; whatever the call
+/// reports, the state afterwards is judged (and a failed call must have left it untouched).
+fn everyn_sweep<const D: usize>(rng: &mut Rng, out: &mut Out, reps: usize) {
+    use delaunay::core::delaunay_triangulation::{DelaunayCheckPolicy, DelaunayRepairPolicy};
+    for n in [2usize, 3] {
+        for rep in 0..reps {
+            let mut w: World<D> = hist::start_empty::<D>(1);
+            let nn = std::num::NonZeroUsize::new(n).unwrap();
+            w.dt.set_delaunay_repair_policy(DelaunayRepairPolicy::EveryN(nn));
+            w.dt.set_delaunay_check_policy(DelaunayCheckPolicy::EndOnly);
+            w.repair_on = true;
+            let pol = format!("OnSuspicion/EveryN({n})/EndOnly");
+            let side = if D <= 3 { 4 } else { 3 };
+            for s in 0..(if D <= 3 { 16 } else { 12 }) {
+                let mut p = [0.0f64; D];
+                for x in p.iter_mut() { *x = rng.range(0, side - 1) as f64; }
+                let with_stats = (s + rep) % 2 == 0;
+                let (obs, _ins) = w.do_insert(p, with_stats, rng);
+                let args = format!("{} class=lattice_everyn pol={pol} stats={}", w.expect_args(false), with_stats as u8);
+                w.emit_state(&format!("en{D}_{n}_{rep}_{s}"), "insert", &args, &obs, out, false);
+                if w.dt.number_of_cells() > 0 && w.dt.as_triangulation().is_valid().is_err() { break; }
+            }
+        }
+    }
+}
+
 /// bootstrap with a degenerate (D+1)-th point: D affinely independent points, then a point in
 /// their affine hull (the initial simplex cannot be built), then completing points - for every
 /// guarantee and with the Delaunay-layer snapshot on (repair EveryInsertion) and off (Never)
@@ -183,6 +210,9 @@ pub fn run(cfg: &Cfg, rng: &mut Rng, out: &mut Out) {
     boot_sweep::<4>(rng, out);
     boot_sweep::<5>(rng, out);
     let reps = if thorough { 4 } else { 1 };
+    everyn_sweep::<3>(rng, out, 3 * reps);
+    everyn_sweep::<4>(rng, out, 2 * reps);
+    everyn_sweep::<5>(rng, out, reps);
     cluster_sweep::<2>(rng, out, 2 * reps);
     cluster_sweep::<3>(rng, out, 2 * reps);
     cluster_sweep::<4>(rng, out, reps);
